@@ -283,6 +283,45 @@ def replay_pi4_1d(ctx, cell, case):
     check_pi4_1d(ctx, case["scheme"])
 
 
+def check_pi4_stream(ctx, cell, case):
+    """pi/4-QPSK in its state-carrying (training) mode: a received sequence presented in pieces (3 + 5 + 2 + 4 symbols per row, one reset before
+    the first piece) must get the decisions and LLRs it gets when presented in one call - the alternation continues across calls. The one-call
+    decisions are what check_scheme verifies against the distance oracle (positions 0 and 1)."""
+    import torch
+    s = case["scheme"]
+    cell = cell or {**s, "mode": "training_stream"}
+    rng = np.random.RandomState(case.get("seed", ctx.seed) + 23)
+    mod, dem = mc.build(s)
+    B, cuts = 3, (0, 3, 8, 10, 14)
+    Y = (rng.uniform(-1.4, 1.4, size=(B, cuts[-1])) + 1j * rng.uniform(-1.4, 1.4, size=(B, cuts[-1]))).astype(np.complex64)
+    for mode, kw in (("hard", {}), ("soft", {"noise_var": 0.7})):
+        for m in (dem, getattr(dem, "modulator", None)):
+            if m is not None:
+                m.eval()
+        mc.reset(dem)
+        whole = dem(torch.from_numpy(Y), **kw).detach().numpy().reshape(B, cuts[-1], 2)
+        for m in (dem, getattr(dem, "modulator", None)):
+            if m is not None:
+                m.train()
+        mc.reset(dem)
+        rcase = {"scheme": s, "mode": mode, "seed": case.get("seed", ctx.seed)}
+        ok, parts = ctx.call(lambda: [dem(torch.from_numpy(np.ascontiguousarray(Y[:, a:b])), **kw).detach().numpy().reshape(B, b - a, 2) for a, b in zip(cuts[:-1], cuts[1:])],
+                             "C06.a_raises", cell, rcase, checker="c06:check_pi4_stream")
+        if not ok:
+            continue
+        got = np.concatenate(parts, axis=1)
+        ctx.ev(got.size)
+        same = np.array_equal(got, whole) if mode == "hard" else np.allclose(got, whole, rtol=1e-4, atol=1e-5)
+        first = None if same else int(np.argwhere(~np.isclose(got, whole, rtol=1e-4, atol=1e-5))[0][1])
+        ctx.check(same, "C06.h_stream", cell, rcase, {"first_differing_symbol": first}, "same as in one call",
+                  "in state-carrying mode a sequence presented in pieces is demodulated differently from the same sequence in one call", "c06:check_pi4_stream")
+        ctx.nontrivial(cell, mode)
+    for m in (dem, getattr(dem, "modulator", None)):
+        if m is not None:
+            m.eval()
+    ctx.cls("pi4_streams")
+
+
 def check_long(ctx, cell, case):
     """Long inputs (70001 points in one row; 7 x 5003): the decisions and LLRs must be the ones the same points get in pieces of 997 -
     pieces of that size are what check_scheme verifies against the distance oracle. An implementation that works in chunks must not lose a tail."""
@@ -332,6 +371,7 @@ def unit_schemes(ctx, schemes):
         ctx.call(lambda: check_long(ctx, None, {"scheme": s}), "C06.scheme_raises", {**s, "layout": "long"}, {"scheme": s, "layout": "long"}, checker="c06:check_long")
         if s["scheme"] == "pi4qpsk":
             ctx.call(lambda: check_pi4_1d(ctx, s), "C06.scheme_raises", {**s, "layout": "1d"}, {"scheme": s, "layout": "1d"}, checker="c06:replay_pi4_1d")
+            ctx.call(lambda: check_pi4_stream(ctx, None, {"scheme": s}), "C06.scheme_raises", {**s, "mode": "training_stream"}, {"scheme": s}, checker="c06:check_pi4_stream")
 
 
 def unit_cross_instance(ctx, family):
